@@ -181,7 +181,9 @@ func genSeqCase(r *simrt.Rand, p seqProfile) SeqCase {
 				c.Ops = append(c.Ops, Op{K: "rollback", Tx: t + 1})
 			}
 		case p.txWeight > 0 && len(open) < p.maxTx && r.Intn(100) < 12+p.txWeight/6:
-			c.Ops = append(c.Ops, Op{K: "begin", Tx: nextTx + 1, Level: levels[r.Intn(len(levels))]})
+			b := Op{K: "begin", Tx: nextTx + 1, Level: levels[r.Intn(len(levels))]}
+			b.NoLvl = b.Level == 1 && nextTx%2 == 0 // every other ReadCommitted transaction is begun without naming a level
+			c.Ops = append(c.Ops, b)
 			open = append(open, nextTx)
 			nextTx++
 		case tx >= 0 && r.Intn(100) < 18:
